@@ -173,7 +173,7 @@ func (rg *rootGeneratorPipeline) worker(ctx context.Context, wg *sync.WaitGroup,
 				currentNode, err := rg.nodeGenerator.generate(sc.Text(), counter.next())
 				if err != nil {
 					verifPoint("gen.err")
-					errc <- err
+					sendErr(ctx, errc, err)
 					return
 				}
 
@@ -188,17 +188,17 @@ func (rg *rootGeneratorPipeline) worker(ctx context.Context, wg *sync.WaitGroup,
 				}
 
 				if nodes == nil {
-					errc <- errNilStack
+					sendErr(ctx, errc, errNilStack)
 					return
 				}
 
 				if !nodes.dfs(currentNode) {
-					errc <- &inputFormatError{row: sc.Text()}
+					sendErr(ctx, errc, &inputFormatError{row: sc.Text()})
 					return
 				}
 			}
 			if err := sc.Err(); err != nil {
-				errc <- err
+				sendErr(ctx, errc, err)
 				return
 			}
 			if root == nil {
